@@ -11,6 +11,7 @@ def sh(cmd, cwd=None, env=None, timeout=1800):
 def main():
     wt, pid = sys.argv[1], sys.argv[2]
     only = sys.argv[3:]
+    offset = int(os.environ.get('SEED_OFFSET', '0'))      # later rounds of seeding: keep earlier seeds (C05-4 ... for the second round)
     env = dict(os.environ, PYTHONPATH=wt)
     for n in sorted(os.listdir(os.path.join(wt, 'seeded'))):
         if only and n not in only:
@@ -18,12 +19,13 @@ def main():
         d = os.path.join(wt, 'seeded', n)
         if not os.path.exists(os.path.join(d, 'patch.diff')):
             continue
-        rec = {'seed': f'{pid}-{n}'}
+        label = f'{pid}-{int(n) + offset}' if n.isdigit() else f'{pid}-{n}'
+        rec = {'seed': label}
         sh('git checkout -- .', cwd=wt)
         rc0, _ = sh(f'/venv/bin/python {d}/demo.py', cwd=wt, env=env)
         rc, out = sh(f'git apply {d}/patch.diff', cwd=wt)
         if rc != 0:
-            print(f'{pid}-{n}: patch does not apply: {out[:200]}'); continue
+            print(f'{label}: patch does not apply: {out[:200]}'); continue
         try:
             rc1, demo_out = sh(f'/venv/bin/python {d}/demo.py', cwd=wt, env=env)
             rc2, suite = sh('/venv/bin/python -m pytest -q -p no:cacheprovider -n 8 pydoctor 2>&1 | tail -3', cwd=wt, env=env)
@@ -44,11 +46,11 @@ def main():
         meta.update({'confirmed': {'demo_without_patch_exit': rc0, 'demo_with_patch_exit': rc1, 'suite_with_patch': f'{passed} passed, {failed} failed (the 11 environmental ones)',
                                    'ran': 'tools/seeded.py: git apply; demo.py; pytest -n 8 pydoctor; ./check with VERIF_REPO=<patched worktree>; git checkout'},
                      'our_check': {'exit': rc3, 'caught': caught, 'violation_lines': viol[:3], 'failed_obligations': failed_obs[:6]}})
-        print(f"{pid}-{n}: valid_seed={ok_seed} caught={caught} exit={rc3} failed_obligations={len(failed_obs)} :: {meta.get('what','')[:110]}")
+        print(f"{label}: valid_seed={ok_seed} caught={caught} exit={rc3} failed_obligations={len(failed_obs)} :: {meta.get('what','')[:110]}")
         if not caught:
             print('   check output tail:', chk[-600:].replace('\n', ' | '))
         if ok_seed:
-            dst = os.path.join('/verif/seeded', f'{pid}-{n}')
+            dst = os.path.join('/verif/seeded', label)
             os.makedirs(dst, exist_ok=True)
             shutil.copy(os.path.join(d, 'patch.diff'), dst)
             shutil.copy(os.path.join(d, 'demo.py'), dst)
